@@ -65,6 +65,7 @@ void mkdirs(const std::string& dir);
 void put(const std::string& path, const void* data, size_t n); // creates parent directories
 inline void put(const std::string& path, const std::vector<uint8_t>& v) { put(path, v.data(), v.size()); }
 void putSparse(const std::string& path, uint64_t len);
+void putPieces(const std::string& path, const std::vector<std::pair<uint64_t, std::vector<uint8_t>>>& pieces, uint64_t total); // sparse file: holes between the pieces
 bool get(const std::string& path, std::vector<uint8_t>& out);  // false if not a readable regular file
 bool exists(const std::string& path);
 bool isDir(const std::string& path);
